@@ -202,6 +202,9 @@ void judge(Ctx& ctx, const Case& c, bool from_replay) {
         }
       }
     ctx.count("solution_vertices_checked", nverts);
+    ctx.count("solution_paths_total", (long long)sol.size());
+    // order-sensitive fingerprint of everything the library returned (lets two builds / two trees be compared from the evidence)
+    ctx.count("solution_fingerprint_sum", (long long)(hash_paths(sol) & 0xFFFFFFFFull));
     if (bad) break;
 
     // ---- claim 1: every cell of the bounding box and of the ring around it
